@@ -138,13 +138,17 @@ ErrText(st, v) ==
     \* [[Get]] of a data property (own or inherited) and ToString of a primitive: nothing here runs
     \* script code; an accessor or an object value leaves the modelled fragment
     LET Get(p) == LET g == C!OM!GetProp(st.H, v.id, p)
-                  IN  IF ~g.has THEN [ok |-> TRUE, v |-> Undef]
-                      ELSE IF g.d.k # "data" THEN [ok |-> FALSE, v |-> Undef]
-                      ELSE [ok |-> g.d.v.t # "obj", v |-> g.d.v]
+                  IN  IF ~g.has THEN [ok |-> TRUE, has |-> FALSE, v |-> Undef]
+                      ELSE IF g.d.k # "data" THEN [ok |-> FALSE, has |-> TRUE, v |-> Undef]
+                      ELSE [ok |-> g.d.v.t # "obj", has |-> TRUE, v |-> g.d.v]
         nm == Get(S_name)                                                                   \* step 3
         mg == Get(S_message)                                                                \* step 5
     IN  IF ~nm.ok \/ ~mg.ok THEN [und |-> TRUE]
-        ELSE LET ns == IF nm.v.t = "undef" THEN S_Error ELSE C!OPS!ToStringPrim(nm.v)        \* step 4
+        \* D19_error_text_missing_name_static: when NO object of the prototype chain has a name property
+        \* otto takes the built-in name of the constructor the instance was made by
+        ELSE LET ns == IF nm.v.t = "undef"
+                       THEN (IF ~nm.has /\ D("D19_error_text_missing_name_static") THEN st.H[v.id].fn.cname ELSE S_Error)
+                       ELSE C!OPS!ToStringPrim(nm.v)                                         \* step 4
              IN  IF mg.v.t = "unmodelled" THEN [und |-> FALSE, known |-> FALSE, name |-> ns, text |-> <<>>]
                  ELSE LET ms == IF mg.v.t = "undef" THEN <<>> ELSE C!OPS!ToStringPrim(mg.v)   \* step 6-7
                       IN  [und |-> FALSE, known |-> TRUE, name |-> ns,
